@@ -208,6 +208,15 @@ func c52(c *Ctx) {
 			}
 		}
 	})
+	c.Ob("error-discipline", "R2", "Write, ReadOnReady and the connection constructor never continue past a failing helper (encryption, decryption, frame parsing, network read/write) to a success return", 8, func() {
+		n := 0
+		for _, fn := range []string{"conn.Write", "conn.ReadOnReady", "NewConnWithMaxFrameSize", "aes128gcm.Encrypt", "aes128gcm.Decrypt", "aes128gcmRekey.Encrypt", "aes128gcmRekey.Decrypt", "rekeyAEAD.Open", "NewAES128GCM", "NewAES128GCMRekey"} {
+			if f := c.P.LookupFunc(altsc, fn); f != nil && f.Blocks != nil {
+				n += c.ErrorsPropagate(f, fn, nil)
+			}
+		}
+		c.Expect(n >= 8, nil, nil, "error-sites", "fewer tested helper errors than on the reviewed tree")
+	})
 	c.Ob("type-check", "R2", "ReadOnReady: Decrypt only after the frame has at least the message-type field and the low byte of the type is the ALTS record type", 2, func() {
 		f := c.fn(altsc, "conn.ReadOnReady")
 		ds := callsIn(f, Callee(altsc, "ALTSRecordCrypto.Decrypt"))
